@@ -325,7 +325,7 @@ impl Property for C08 {
     fn budget(tier: Tier) -> u64 {
         match tier {
             Tier::Quick => 30_000,
-            Tier::Thorough => 1_000_000,
+            Tier::Thorough => 600_000,
         }
     }
 
